@@ -120,6 +120,7 @@ func recordKey(d dhcpv6.DUID) string {
 
 // Handle processes DHCPv6 packets for the prefix plugin for a given allocator/leaseset
 func (h *Handler) Handle(req, resp dhcpv6.DHCPv6) (dhcpv6.DHCPv6, bool) {
+	verifTrack(h)
 	msg, err := req.GetInnerMessage()
 	if err != nil {
 		log.Error(err)
